@@ -22,25 +22,50 @@ PARTS = 5
 
 
 def shards(tier, seed):
-    return [{"fn": fn, "part": p, "parts": PARTS} for fn in ("init", "ping", "account") for p in range(PARTS)]
+    return [{"fn": fn, "part": p, "parts": PARTS} for fn in ("init", "ping", "account") for p in range(PARTS)] + [{"fn": fn, "sticky": True} for fn in ("init", "ping", "account")]
 
 
 def run(shard, rec, tier, seed):
     import random as real_random
 
-    enum = hr.Enumerator(shard["part"], shard["parts"])
+    enum = hr.Sticky(0) if shard.get("sticky") else hr.Enumerator(shard["part"], shard["parts"])
     saved = hr.install(enum, [])
     try:
         ns = stage.shim()  # imported under the patched random module, so `from random import x` is caught too
         ss = ns.sequence_start
         saved2 = hr.install(enum, [ss])
         try:
-            _run(shard, rec, ss, enum)
+            if shard.get("sticky"):
+                _run_sticky(shard, rec, ss, enum)
+            else:
+                _run(shard, rec, ss, enum)
         finally:
             hr.uninstall(saved2)
     finally:
         hr.uninstall(saved)
     assert real_random.randrange is not enum.randrange
+
+
+def _run_sticky(shard, rec, ss, enum):
+    """A random source that got stuck on one answer: the start it yields must be as good as any other, and
+    generation must not fail on it (a redraw loop is let out after Sticky.CAP draws)."""
+    fn = shard["fn"]
+    cls = {"init": ss.InitSequenceStart, "ping": ss.PingSequenceStart, "account": ss.AccountReplySequenceStart}[fn]
+    n = 0
+    for k in range(0, 1800):
+        enum.k = k
+        enum.begin()
+        try:
+            s = cls.generate()
+        except Exception as ex:
+            rec.violation("generate-raises", "%s.generate() raised %r with a random source stuck on index %d (%d draws)" % (cls.__name__, ex, k, enum.in_call), {"fn": fn, "sticky": k})
+            continue
+        n += 1
+        check(fn, cls, s, ["stuck on %d" % k], rec)
+    rec.case(("sticky", fn), n=n)
+    rec.count("stuck-source-outcomes", n)
+    rec.count("reconstruct", n)
+    rec.count("stuck-source-calls-let-out-after-cap", enum.capped)
 
 
 def _run(shard, rec, ss, enum):
@@ -101,6 +126,7 @@ def _run(shard, rec, ss, enum):
     rec.count("outcomes-" + fn, n)
     rec.count("reconstruct", n)
     rec.count("draws", enum.draws)
+    rec.count("draws-beyond-enumerated-depth", enum.beyond_depth)
     rec.count("distinct-values-" + fn + "-part%d" % shard["part"], len(values))
     for r in sorted(enum.ranges_seen)[:6]:
         rec.seen("ranges-" + fn, r)
